@@ -450,6 +450,15 @@ class XYDataSet:
         xdata = kwargs.pop("xdata", args[0] if len(args) >= 2 else None)
         ydata = kwargs.pop("ydata", args[1] if len(args) >= 2 else None)
 
+        # Existing arrays passed in as data have their uncertainties overwritten below, so
+        # the request is validated as a whole before anything is changed
+        if all(isinstance(data, ARRAY_TYPES) for data in (xdata, ydata)):
+            if len(xdata) != len(ydata):
+                raise ValueError("The length of xdata and ydata don't match!")
+        for data, error in ((xdata, xerr), (ydata, yerr)):
+            if isinstance(data, ExperimentalValueArray) and error is not None:
+                _get_error_array_helper(data, error, None)
+
         xdata = XYDataSet.__wrap_data(xdata, xerr, name=xname, unit=xunit)
         ydata = XYDataSet.__wrap_data(ydata, yerr, name=yname, unit=yunit)
 
